@@ -103,6 +103,23 @@ func WriteAnchors(p *Prog, path string) error {
 		}
 		es = append(es, anchorEntry{FuncName(f), sigOf(f), featsOf(f)})
 	}
+	// the layout of the package's struct types: "struct:<type>" with one feature per field (index:name:type)
+	for _, pkg := range []*ssa.Package{p.Main, p.Post} {
+		if pkg == nil {
+			continue
+		}
+		for _, m := range pkg.Members {
+			t, ok := m.(*ssa.Type)
+			if !ok {
+				continue
+			}
+			st, ok := t.Type().Underlying().(*types.Struct)
+			if !ok {
+				continue
+			}
+			es = append(es, anchorEntry{"struct:" + t.Name(), "", structFeats(st)})
+		}
+	}
 	sort.Slice(es, func(i, j int) bool { return es[i].Name < es[j].Name })
 	b, err := json.MarshalIndent(es, "", " ")
 	if err != nil {
@@ -146,13 +163,111 @@ func (p *Prog) ApplyAnchors(path string) []string {
 		}
 	}
 	recorded := map[string]bool{}
-	var missing []anchorEntry
+	var missing, structs []anchorEntry
 	for _, e := range es {
+		if strings.HasPrefix(e.Name, "struct:") {
+			structs = append(structs, e)
+			continue
+		}
 		recorded[e.Name] = true
 		if have[e.Name] == nil {
 			missing = append(missing, e)
 		}
 	}
+	defer func() {
+		// renamed struct types without methods (records): a recorded struct that is gone and an unrecorded struct of
+		// today with the same sequence of field types (unique on both sides)
+		typesOf := func(feats []string) string {
+			var ts []string
+			for _, f := range feats {
+				if a := strings.SplitN(f, ":", 3); len(a) == 3 {
+					ts = append(ts, a[2])
+				}
+			}
+			return strings.Join(ts, "|")
+		}
+		today := map[string]*types.Struct{}
+		for _, pkg := range []*ssa.Package{p.Main, p.Post} {
+			if pkg == nil {
+				continue
+			}
+			for _, m := range pkg.Members {
+				if t, ok := m.(*ssa.Type); ok {
+					if st, ok := t.Type().Underlying().(*types.Struct); ok {
+						today[t.Name()] = st
+					}
+				}
+			}
+		}
+		recStruct := map[string]bool{}
+		for _, e := range structs {
+			recStruct[strings.TrimPrefix(e.Name, "struct:")] = true
+		}
+		for _, e := range structs {
+			old := strings.TrimPrefix(e.Name, "struct:")
+			if _, alive := today[old]; alive {
+				continue
+			}
+			known := false
+			for _, o := range typeAliases {
+				if o == old {
+					known = true
+				}
+			}
+			if known {
+				continue
+			}
+			match, n := "", 0
+			for name, st := range today {
+				if recStruct[name] || typeAliases[name] != "" {
+					continue
+				}
+				if typesOf(structFeats(st)) == typesOf(e.Feats) {
+					match = name
+					n++
+				}
+			}
+			if n == 1 {
+				typeAliases[match] = old
+			}
+		}
+		// renamed fields, once renamed types are known: same struct (by its known name), same number of fields,
+		// same type at the index — the field keeps the name the rules know
+		for _, pkg := range []*ssa.Package{p.Main, p.Post} {
+			if pkg == nil {
+				continue
+			}
+			for _, m := range pkg.Members {
+				t, ok := m.(*ssa.Type)
+				if !ok {
+					continue
+				}
+				named, _ := t.Type().(*types.Named)
+				st, ok := t.Type().Underlying().(*types.Struct)
+				if !ok || named == nil {
+					continue
+				}
+				for _, e := range structs {
+					if e.Name != "struct:"+KnownTypeName(named) {
+						continue
+					}
+					now := structFeats(st)
+					if len(now) != len(e.Feats) {
+						continue
+					}
+					for i := range now {
+						a, b := strings.SplitN(e.Feats[i], ":", 3), strings.SplitN(now[i], ":", 3)
+						if len(a) == 3 && len(b) == 3 && a[1] != b[1] {
+							if fieldAliases[st] == nil {
+								fieldAliases[st] = map[int]string{}
+							}
+							fieldAliases[st][i] = a[1]
+						}
+					}
+				}
+			}
+		}
+	}()
 	if len(missing) == 0 {
 		return nil
 	}
@@ -396,4 +511,14 @@ func sameSig(a, b string) bool {
 		return s
 	}
 	return dropFirst(a) == b || dropFirst(b) == a
+}
+
+// structFeats: one "index:name:type" per field (types of the package spelled without the package path).
+func structFeats(st *types.Struct) []string {
+	q := func(*types.Package) string { return "" }
+	var out []string
+	for i := 0; i < st.NumFields(); i++ {
+		out = append(out, fmt.Sprintf("%d:%s:%s", i, st.Field(i).Name(), types.TypeString(st.Field(i).Type(), q)))
+	}
+	return out
 }
